@@ -71,6 +71,7 @@ type subStats struct {
 	Samples      []sample       `json:"samples"`
 	Hashes       []string       `json:"hashes"`
 	Failed       string         `json:"failed,omitempty"`
+	Exhaustive   bool           `json:"exhaustive,omitempty"`
 	hashSet      map[uint64]struct{}
 	frozen       bool
 }
@@ -394,6 +395,50 @@ func RunSub[P any](t *testing.T, s Sub[P]) {
 				rt.Fatalf("%s", v.Fail)
 			}
 		})
+	})
+}
+
+// RunEnum runs a finite list of plans completely (an enumerated sub-space); same recording as RunSub.
+func RunEnum[P any](t *testing.T, name string, plans []P, run func(P) Verdict) {
+	t.Helper()
+
+	if rp := os.Getenv("VERIF_REPLAY"); rp != "" {
+		runReplay(t, Sub[P]{Name: name, Run: run}, rp)
+
+		return
+	}
+
+	if only := os.Getenv("VERIF_ONLY"); only != "" {
+		if ok, _ := regexp.MatchString(only, name); !ok {
+			return
+		}
+	}
+
+	mu.Lock()
+	getStats(name).Exhaustive = true
+	mu.Unlock()
+
+	t.Run(name, func(t *testing.T) {
+		curT = t
+
+		for _, p := range plans {
+			pj, _ := json.Marshal(p)
+			v := safeRun(run, p)
+
+			record(name, pj, v)
+
+			if v.Fail != "" {
+				freeze(name, v.Fail)
+
+				path := writeReplay(name, pj, v.Fail, "min")
+
+				mu.Lock()
+				replays = append(replays, path)
+				mu.Unlock()
+
+				t.Fatalf("%s", v.Fail)
+			}
+		}
 	})
 }
 
